@@ -367,14 +367,63 @@ func (e *Engine) libIntrinsic(fn *ssa.Function, full string, args []Value) (Valu
 			return e.sprint(ops), true
 		}
 		gs := make([]any, len(ops))
+		allConc := true
 		for i, a := range ops {
 			g, ok := goValue(a)
 			if !ok {
-				return e.opaqueStr(), true
+				allConc = false
+				break
 			}
 			gs[i] = g
 		}
-		return mkStr(fmt.Sprintf(f, gs...)), true
+		if allConc {
+			return mkStr(fmt.Sprintf(f, gs...)), true
+		}
+		// plain %s / %v / %d verbs with symbolic operands: literal pieces and
+		// the operands' text; anything fancier stays opaque
+		out := StrVal{}
+		argi := 0
+		for i := 0; i < len(f); i++ {
+			if f[i] != '%' {
+				out.bytes = append(out.bytes, mkInt(int64(f[i])))
+				continue
+			}
+			i++
+			if i >= len(f) {
+				return e.opaqueStr(), true
+			}
+			switch f[i] {
+			case '%':
+				out.bytes = append(out.bytes, mkInt('%'))
+			case 's', 'v', 'd':
+				if argi >= len(ops) {
+					return e.opaqueStr(), true
+				}
+				iv, isI := ops[argi].(IfaceVal)
+				if !isI || iv.typ == nil {
+					return e.opaqueStr(), true
+				}
+				if b, ok := iv.typ.Underlying().(*types.Basic); !ok || b.Info()&(types.IsString|types.IsInteger|types.IsBoolean) == 0 ||
+					(f[i] == 'd' && b.Info()&types.IsInteger == 0) || (f[i] == 's' && b.Info()&types.IsString == 0) {
+					return e.opaqueStr(), true
+				}
+				if _, isNamed := iv.typ.(*types.Named); isNamed {
+					return e.opaqueStr(), true // may have a String method
+				}
+				piece, ok := e.sprint([]Value{ops[argi]}).(StrVal)
+				if !ok || piece.atom != nil {
+					return e.opaqueStr(), true
+				}
+				out.bytes = append(out.bytes, piece.bytes...)
+				argi++
+			default:
+				return e.opaqueStr(), true
+			}
+		}
+		if argi != len(ops) {
+			return e.opaqueStr(), true
+		}
+		return out, true
 	case "fmt.Sprint":
 		return e.sprint(variadic(args[0])), true
 	case "fmt.Fprint", "fmt.Fprintf", "fmt.Fprintln", "fmt.Printf", "fmt.Println", "fmt.Print":
@@ -430,7 +479,16 @@ func (e *Engine) libIntrinsic(fn *ssa.Function, full string, args []Value) (Valu
 	case "(*strings.Builder).Len":
 		return mkInt(int64(len(e.sbufs[args[0].(PtrVal).slot].bytes))), true
 	case "(*strings.Builder).Grow":
+		p := args[0].(PtrVal)
+		if n := args[1].(*Term); n.konst && int(n.iv) > e.sbufCap[p.slot] {
+			e.sbufCap[p.slot] = int(n.iv)
+		} else if !n.konst {
+			e.sbufCap[p.slot] = 1 << 20
+		}
 		return nil, true
+	case "(*strings.Builder).Cap":
+		p := args[0].(PtrVal)
+		return mkInt(int64(max(e.sbufCap[p.slot], len(e.sbufs[p.slot].bytes)))), true
 	case "(*strings.Builder).Reset":
 		delete(e.sbufs, args[0].(PtrVal).slot)
 		return nil, true
